@@ -444,7 +444,7 @@ func (fv *FV) wfAxioms(key, c, alloc string) {
 	if fv.compKind[key] == "ptr" {
 		fv.axioms = append(fv.axioms, fmt.Sprintf("(forall ((r Int)) (! (select %s (select %s r)) :pattern ((select %s r))))", alloc, c, c))
 	}
-	if sort == arr(sInt, arr(sInt, sSlice)) {
+	if sort == arr(sInt, arr(sInt, sSlice)) && fv.paramHasNestedSlices() {
 		fv.axioms = append(fv.axioms, fmt.Sprintf("(forall ((r Int) (x Int)) (! (let ((s (select (select %s r) x))) (and (<= 0 (soff s)) (<= 0 (slen s)) (<= (slen s) (scap s)) (=> (= (sbase s) 0) (= (scap s) 0)) (select %s (sbase s)))) :pattern ((select (select %s r) x))))", c, alloc, c))
 	}
 }
@@ -668,4 +668,37 @@ func (fv *FV) merge(states ...*State) *State {
 		out.heap[k] = mergeTerm("H."+k, ts)
 	}
 	return out
+}
+
+// paramHasNestedSlices: some parameter (or the receiver) holds slices of slices, so that slice headers stored in
+// element arrays that exist at entry must be known to be well-formed. (The axiom is expensive — it fires on every
+// read of such an array — and is omitted where the only arrays of slices are built by the function itself.)
+func (fv *FV) paramHasNestedSlices() bool {
+	sig, ok := fv.fi.Obj.Type().(*types.Signature)
+	if !ok {
+		return true
+	}
+	has := func(t types.Type) bool {
+		if et := elemType(t); et != nil {
+			if elemType(et) != nil {
+				return true
+			}
+			if _, isStruct := et.Underlying().(*types.Struct); isStruct {
+				return true
+			}
+		}
+		if _, isPtr := t.Underlying().(*types.Pointer); isPtr {
+			return true
+		}
+		return false
+	}
+	if sig.Recv() != nil {
+		return true
+	}
+	for i := 0; i < sig.Params().Len(); i++ {
+		if has(sig.Params().At(i).Type()) {
+			return true
+		}
+	}
+	return false
 }
